@@ -463,6 +463,21 @@ int main (int argc, char **argv)
 			else if (!strcmp (qsx_tok[1], "bound")) { qsx_parse_q (qsx_tok[4], v); rv = mpq_QSchange_bound (P, atoi (qsx_tok[2]), qsx_tok[3][0], v); }
 			else if (!strcmp (qsx_tok[1], "objsense")) rv = mpq_QSchange_objsense (P, strcmp (qsx_tok[2], "MAX") ? QS_MIN : QS_MAX);
 			else if (!strcmp (qsx_tok[1], "delrow")) rv = mpq_QSdelete_row (P, atoi (qsx_tok[2]));
+			else if (!strcmp (qsx_tok[1], "delbasicrow"))
+			{
+				/* delete the k-th row (k = argument, counted cyclically) whose logical is basic in the stored basis:
+				   the delete call that may keep basis and cached solution */
+				int m = mpq_QSget_rowcount (P), n = mpq_QSget_colcount (P), i, cnt = 0, pick = -1, want = atoi (qsx_tok[2]);
+				char *cs = (char *) malloc ((size_t) n + 1), *rs = (char *) malloc ((size_t) m + 1);
+				rv = 0;
+				if (m > 1 && mpq_QSget_basis_array (P, cs, rs) == 0)
+				{
+					for (i = 0; i < m; i++) if (rs[i] == QS_ROW_BSTAT_BASIC) cnt++;
+					if (cnt) for (i = 0, want = want % cnt; i < m; i++) if (rs[i] == QS_ROW_BSTAT_BASIC && want-- == 0) { pick = i; break; }
+					if (pick >= 0) rv = mpq_QSdelete_row (P, pick);
+				}
+				free (cs); free (rs);
+			}
 			else if (!strcmp (qsx_tok[1], "delcol")) rv = mpq_QSdelete_col (P, atoi (qsx_tok[2]));
 			printf ("CHG %d\n", rv);
 			mpq_clear (v);
